@@ -52,7 +52,7 @@ def build_driver():
         if os.path.getmtime(src) <= os.path.getmtime(DRIVER):
             return
     env = dict(os.environ, CARGO_NET_OFFLINE="true")
-    subprocess.check_call(["cargo", "build", "--release", "--offline"], cwd=os.path.join(VERIF, "engine", "mirfacts"), env=env)
+    subprocess.check_call(["cargo", "+nightly", "build", "--release", "--offline"], cwd=os.path.join(VERIF, "engine", "mirfacts"), env=env)
 
 
 def complete(d, nonce=None):
